@@ -4,6 +4,7 @@
 -/
 import IpldModel.Model.Link
 import IpldModel.Props.C02
+import IpldModel.Generated.LinkSkeletons
 namespace Ipld.Props.C05
 open Ipld Ipld.Link
 
@@ -224,5 +225,70 @@ theorem load_store_dagcbor (s : Store) (p : Proto) (v : DM) (l : Lnk)
     subst he
     simp [dagcborCodec, rt, Except.toOption]
   · simp at he
+
+
+/-! ## (T) the transcribed functions as they are in the source on this run -/
+
+/-- `BuildLink`, statement by statement, is what `Link.truncate` / `v0ok` / `mkLink` transcribe: identity hashes are never truncated (`length = -1`), a CIDv0 prototype must be sha2-256 with length 32 or -1 (else panic — the model's `none`), a digest is cut to `MhLength` exactly when a length is given, and the version selects the CID constructor (anything but 0 or 1 panics). -/
+theorem buildLink_src_is_transcribed : Ipld.Generated.buildLink_skel_src = [
+  "p := lp.Prefix",
+  "length := p.MhLength",
+  "if p.MhType == multihash.IDENTITY",
+  ". length = -1",
+  "if p.Version == 0 && (p.MhType != multihash.SHA2_256 || (p.MhLength != 32 && p.MhLength != -1))",
+  ". panic(fmt.Errorf(\"invalid cid v0 prefix\"))",
+  "if length != -1",
+  ". hashsum = hashsum[:p.MhLength]",
+  "mh, err := multihash.Encode(hashsum, p.MhType)",
+  "if err != nil",
+  ". panic(err)",
+  "switch lp.Prefix.Version",
+  "case 0",
+  ". return Link{cid.NewCidV0(mh)}",
+  "case 1",
+  ". return Link{cid.NewCidV1(p.Codec, mh)}",
+  "default",
+  ". panic(fmt.Errorf(\"invalid cid version\"))"
+] := by decide
+
+/-- `Store`: the encoder writes into storage and hasher at once, an encoder error or a (first) storage write error returns before the committer is called, the link is built from the hasher's sum and committed under exactly that link (`Link.store`). -/
+theorem store_src_is_transcribed : Ipld.Generated.store_skel_src = [
+  "if lnkCtx.Ctx == nil",
+  ". lnkCtx.Ctx = context.Background()",
+  "encoder, err := lsys.EncoderChooser(lp)",
+  "if err != nil",
+  ". return nil, ErrLinkingSetup{\"could not choose an encoder\", err}",
+  "hasher, err := lsys.HasherChooser(lp)",
+  "if err != nil",
+  ". return nil, ErrLinkingSetup{\"could not choose a hasher\", err}",
+  "if lsys.StorageWriteOpener == nil",
+  ". return nil, ErrLinkingSetup{\"no storage configured for writing\", io.ErrClosedPipe}",
+  "writer, commitFn, err := lsys.StorageWriteOpener(lnkCtx)",
+  "if err != nil",
+  ". return nil, err",
+  "storageWriter := &firstErrWriter{w: writer}",
+  "tee := io.MultiWriter(storageWriter, hasher)",
+  "err = encoder(n, tee)",
+  "if err != nil",
+  ". return nil, err",
+  "if storageWriter.err != nil",
+  ". return nil, storageWriter.err",
+  "lnk := lp.BuildLink(hasher.Sum(nil))",
+  "return lnk, commitFn(lnk)"
+] := by decide
+
+/-- `ComputeLink` runs the same encoder into the same hasher and builds the link the same way, without storage (`Link.computeLink`): `store_eq_compute` is about these two bodies. -/
+theorem computeLink_src_is_transcribed : Ipld.Generated.computeLink_skel_src = [
+  "encoder, err := lsys.EncoderChooser(lp)",
+  "if err != nil",
+  ". return nil, ErrLinkingSetup{\"could not choose an encoder\", err}",
+  "hasher, err := lsys.HasherChooser(lp)",
+  "if err != nil",
+  ". return nil, ErrLinkingSetup{\"could not choose a hasher\", err}",
+  "err = encoder(n, hasher)",
+  "if err != nil",
+  ". return nil, err",
+  "return lp.BuildLink(hasher.Sum(nil)), nil"
+] := by decide
 
 end Ipld.Props.C05
